@@ -66,3 +66,31 @@ PROGS = [
     "x = [1]; y = {'a': 1}\ndef f(a,b = 1,*c): return [a,b,c]\nclass C: z = [1]\n",
     "def f(\n    a,  # first\n    b=None,  # second\n):\n  return [a, b]\n",
 ]
+
+# Partially annotated programs in which the author himself wrote a bare Any / Never (or typing.Any)
+# as a return or variable annotation - with and without a value, at module level, in class bodies,
+# in nested scopes and control flow - next to unannotated definitions the merge fills in.  "Existing
+# annotations are kept" covers these too, although the same text must never be *inserted*.
+EXISTING_ANY_NEVER = [
+    "from typing import Any\ndef ident(x) -> Any:\n  return x\ndef size(xs):\n  return len(xs)\n",
+    "from typing import Never\ndef die(msg) -> Never:\n  raise SystemExit(msg)\ndef pair(a, b=1):\n  return [a, b]\n",
+    "from typing import Any\ncache: Any = {}\nlimit = [10]\ndef get(k):\n  return cache[k]\n",
+    "from typing import Any\npayload: Any\nextra: Any = None\ncount = [0]\n",
+    "from typing import Any\nclass Record:\n  payload: Any\n  extra: Any = None\n  tags = ['a']\n"
+    "  def __init__(self, payload):\n    self.payload = payload\n  def get(self, key) -> Any:\n    return self.payload[key]\n"
+    "  def size(self):\n    return len(self.payload)\n",
+    "from typing import Any, Never\nclass Hooks:\n  on_fail: Never\n  state: Any\nclass Other:\n  n = [1]\n  def m(self):\n    return self.n\n",
+    "from typing import Never\nunreachable: Never\ndef fail() -> Never:\n  raise ValueError()\nclass E:\n  def boom(self, why) -> Never:\n    raise RuntimeError(why)\n  def ok(self):\n    return [1]\n",
+    "import typing\ndef f(x) -> typing.Any:\n  return x\nblob: typing.Any = None\nmore: typing.Any\ndef g(y):\n  return [y]\n",
+    "from typing import Any\ndef outer(a):\n  def inner(b) -> Any:\n    return [a, b]\n  local: Any = inner(a)\n  return local\nr = outer(1)\n",
+    "from typing import Any, Never\nimport sys\nif sys.version_info >= (3, 0):\n  mode: Any = 'new'\n  def stop() -> Never:\n    raise SystemExit(1)\nelse:\n  mode: Any = 'old'\n  def stop() -> Never:\n    raise SystemExit(2)\nitems = [mode]\n",
+    "from typing import Any\ntry:\n  conf: Any = {'a': 1}\nexcept Exception:\n  conf = None\nfor i in [1]:\n  last: Any = i\nwith open(__file__) as fh:\n  head: Any = fh\ndef use():\n  return [conf]\n",
+    "from typing import Any, Never, Optional\ndef f(a: Any, b, *rest: Any, k: Any = None, **kw: Any) -> Any:\n  return [a, b]\ndef g(a: Never):\n  return a\ndef h(a: Optional[Any] = None) -> dict[str, Any]:\n  return {}\n",
+    "from typing import Any\nclass Outer:\n  slot: Any\n  class Inner:\n    deep: Any = []\n    deeper: Any\n    def m(self) -> Any:\n      return self.deep\n  def n(self):\n    return Outer.Inner()\n",
+    "from typing import Any\nimport abc\nclass Base(abc.ABC):\n  registry: Any = {}\n  @abc.abstractmethod\n  def run(self, job) -> Any:\n    pass\n  @staticmethod\n  def s(x) -> Any:\n    return x\n  @property\n  def p(self) -> Any:\n    return 1\n  @classmethod\n  def make(cls):\n    return [cls]\n",
+    "from typing import Any\nasync def fetch(u) -> Any:\n  return u\nasync def other(u):\n  return [u]\nresult: Any; spare = [1]\n",
+    '"""Doc."""\nfrom typing import Any as A, Never as N\ndef f(x) -> A:\n  return x\ndef g() -> N:\n  raise KeyError()\nv: A = 1\nw: N\nu = [1]\n',
+    "from typing import Any\nx: Any = 1\nx = 'again'\ny: Any\ny = [2]\nz = {3}\n",
+    "from typing_extensions import Never\nfrom typing import Any\ndef f() -> Never:\n  raise OSError()\nq: Any = f\nclass K:\n  a: Any\n  b = a = None\n  c, d = [1], [2]\n",
+]
+PROGS += EXISTING_ANY_NEVER
